@@ -517,6 +517,25 @@ def fam_park(tier, tag, variants=("plain", "backing", "special"), nths=None, see
     return out
 
 
+def fam_wide_faults(tier, seed, tag, nh=None):
+    """L1 tables of several blocks: a fault at each request while a later L1 block and the slices below it are flushed"""
+    rng = random.Random(seed * 613 + zlib.crc32(tag.encode()) % 1000)
+    scens = []
+    for h in range(nh or (2 if tier == "quick" else 12)):
+        geo = dict(cb=9, ro=4, bsb=9, vclusters=64 * rng.choice([66, 70, 130]), params={"l2": [9, 1024], "rb": [9, 1024]})
+        nl1 = geo["vclusters"] // 64
+        images = [S.image_plain(geo, "build")]
+        idx = [rng.choice([0, 1, 63]), rng.choice([64, 65, nl1 - 1]), rng.choice([64, 65, nl1 - 1, 127 % nl1])]
+        touched = [i1 * 64 + rng.randrange(64) for i1 in idx]
+        pre = [{"op": "write", "gb": touched[0], "n": 1}, {"op": "flush"}]
+        ops = [{"op": "write", "gb": c, "n": 1} for c in touched[1:]] + [{"op": "flush"}]
+        rd = [{"op": "read", "gb": c, "n": 1} for c in touched]
+        tail = [{"op": "recover", "retries": 4}] + rd + [{"op": "flush"}, {"op": "reopen"}] + rd
+        for k in range(16 if tier == "quick" else 30):
+            scens.append(S.mk(f"{tag}-l1{h}-f{k}", geo, images, pre + [{"op": "fail_next", "nth": k, "partial": k % 3 == 2}] + ops + tail))
+    return scens
+
+
 def fam_cowread(tier, seed, tag, nruns):
     """reads overlapping copy-on-write in time: partial writes over backing /
     compressed clusters with concurrent reads of the same and neighbouring clusters"""
@@ -894,6 +913,7 @@ def check_C02(chk):
     scens += fam_exhaustive_par(chk.tier, "c02p", seed=chk.seed, seeds=(1, 2), probe=True, sweep=4 if chk.tier == "quick" else 20)
     scens += fam_outage(chk.tier, chk.seed, "c02o", 6 if chk.tier == "quick" else 40)
     scens += fam_park(chk.tier, "c02k", variants=("plain", "special"), seed=chk.seed)
+    scens += fam_wide_faults(chk.tier, chk.seed, "c02")
     scens += fam_regress()
     res, st = Q.run_batch(scens, chk.wd, known=chk.known_tags(), par=12)
     chk.consume(res, st, props=("C02",))
@@ -915,6 +935,7 @@ def check_C03(chk):
     scens += fam_exhaustive_par(chk.tier, "c03p", seed=chk.seed, seeds=(1, 2))
     scens += fam_growth(chk.tier, chk.seed, "c03g", 8 if chk.tier == "quick" else 48)
     scens += fam_park(chk.tier, "c03k", variants=("plain", "special"), seed=chk.seed)
+    scens += fam_wide_faults(chk.tier, chk.seed, "c03")
     scens += fam_regress()
     res, st = Q.run_batch(scens, chk.wd, known=chk.known_tags(), par=12)
     chk.consume(res, st, props=("C03",))
@@ -1329,19 +1350,7 @@ def check_C17(chk):
         for k in range(20 if chk.tier == "quick" else 30):
             scens.append(S.mk(f"c17-np{h}-f{k}", geo, images, [{"op": "fail_next", "nth": k, "partial": False}] + ops + tail,
                               punch_unsupported=True))
-    # (c) L1 tables of several blocks: faults while a later L1 block and the slices below it are flushed
-    for h in range(2 if chk.tier == "quick" else 12):
-        geo = dict(cb=9, ro=4, bsb=9, vclusters=64 * rng.choice([66, 70, 130]), params={"l2": [9, 1024], "rb": [9, 1024]})
-        nl1 = geo["vclusters"] // 64
-        images = [S.image_plain(geo, "build")]
-        idx = [rng.choice([0, 1, 63]), rng.choice([64, 65, nl1 - 1]), rng.choice([64, 65, nl1 - 1, 127 % nl1])]
-        touched = [i1 * 64 + rng.randrange(64) for i1 in idx]
-        pre = [{"op": "write", "gb": touched[0], "n": 1}, {"op": "flush"}]
-        ops = [{"op": "write", "gb": c, "n": 1} for c in touched[1:]] + [{"op": "flush"}]
-        rd = [{"op": "read", "gb": c, "n": 1} for c in touched]
-        tail = [{"op": "recover", "retries": 4}] + rd + [{"op": "flush"}, {"op": "reopen"}] + rd
-        for k in range(16 if chk.tier == "quick" else 30):
-            scens.append(S.mk(f"c17-l1{h}-f{k}", geo, images, pre + [{"op": "fail_next", "nth": k, "partial": k % 3 == 2}] + ops + tail))
+    scens += fam_wide_faults(chk.tier, chk.seed, "c17")
     res, st = Q.run_batch(scens, chk.wd, known=chk.known_tags(), par=14)
     chk.consume(res, st, props=("C17", "C07", "C01", "PANIC"))
     nf = sum(r["summary"].get("faults", 0) for r in res.values())
